@@ -291,6 +291,41 @@ fn validation(tier: Tier, st: &mut Stats) {
                     }
                 }
             }
+            // a CSV that yields no entry, loaded over an existing user lexicon: an error, or a
+            // dictionary without user words -- never the previous user lexicon still in effect
+            if ctx.len() <= 1 {
+                for ui in 0..f.users.len() {
+                    for empty in ["", "\n", "\n\n", ",1,1,0,x\n", "\"\",1,1,0,x\n\n"] {
+                        st.states += 1;
+                        st.transitions += 1;
+                        st.count("entry_less_user_csv_over_a_loaded_one");
+                        let mut h = ctx.clone();
+                        h.push(Op::LoadUser(ui));
+                        let d = exec_history(f, &h).unwrap_or_else(|_| std::process::exit(2));
+                        let txt = empty.to_string();
+                        let res = guard(move || d.reset_user_lexicon_from_reader(Some(txt.as_bytes())));
+                        let sentences = all_strings(&f.alphabet, 3);
+                        let bad = match res {
+                            Err(p) => Some(format!("panic {p}")),
+                            Ok(Err(_)) => None,
+                            Ok(Ok(d2)) => {
+                                let mut hc = h.clone();
+                                hc.push(Op::Clear);
+                                let cleared = exec_history(f, &hc).unwrap_or_else(|_| std::process::exit(2));
+                                let (o1, o2) = (observe(d2, &sentences), observe(cleared, &sentences));
+                                if format!("{:?}", o1.tokens) == format!("{:?}", o2.tokens) { None } else { Some("accepted, and the previous user lexicon is still in effect (tokens differ from the cleared dictionary)".to_string()) }
+                            }
+                        };
+                        if let Some(why) = bad {
+                            st.violation(Finding {
+                                class: "entry-less-user-csv-keeps-previous-lexicon".into(),
+                                what: format!("user CSV {:?} loaded after {:?}: {why} [{}]", empty, h, f.name),
+                                replay: json!({"kind": "user_lexicon", "case": f.describe(&h), "csv": empty}),
+                            });
+                        }
+                    }
+                }
+            }
             for m in &malformed {
                 st.states += 1;
                 st.transitions += 1;
@@ -321,7 +356,7 @@ pub fn run(tier: Tier) -> i32 {
     equivalence(tier, &mut st);
     histories(tier, &mut st);
     validation(tier, &mut st);
-    rep.rule = "(a) state = (lexicon/cost dictionary with a user lexicon from a menu of 3, option setting, sentence); the lattice candidates and the optimal cost must equal those of the dictionary whose system lexicon is extended by the same rows; (b) state = history over {load U1, load U2, clear} (optionally on a mapped dictionary): full observation table must equal that of the canonical history (fresh + last loaded / nothing); (c) every user row with ids in {0, n-1, n, n+1, 65535}^2 and 8 malformed CSVs in 5 contexts (unmapped, mapped, mapped twice, reloaded): Ok iff in range, else Err, never a panic; distinct = distinct observation tables / outcome classes".into();
+    rep.rule = "(a) state = (lexicon/cost dictionary with a user lexicon from a menu of 3, option setting, sentence); the lattice candidates and the optimal cost must equal those of the dictionary whose system lexicon is extended by the same rows; (b) state = history over {load U1, load U2, clear} (optionally on a mapped dictionary): full observation table must equal that of the canonical history (fresh + last loaded / nothing); (c) an entry-less CSV over a loaded user lexicon gives Err or a dictionary without user words; every user row with ids in {0, n-1, n, n+1, 65535}^2 and 8 malformed CSVs in 5 contexts (unmapped, mapped, mapped twice, reloaded): Ok iff in range, else Err, never a panic; distinct = distinct observation tables / outcome classes".into();
     rep.bounds = json!({"sentence_len": tier.pick(4, 6), "history_depth": tier.pick(3, 5)});
     rep.finish(
         st,
